@@ -19,7 +19,7 @@ type Env struct {
 	resolve func(name string) (Val, bool)
 	inOld   bool
 	depth   int
-	prev    *Env // loop-iteration start (state and variable values at the loop header)
+	prev    *Env      // loop-iteration start (state and variable values at the loop header)
 	loop    *loopInfo // the loop whose invariant is being evaluated (nil outside invariants)
 	head    *Env      // start of the current iteration of the innermost enclosing loop
 }
@@ -51,6 +51,8 @@ func ghostSort(t string) Sort {
 		return SortIntArr
 	case "slice":
 		return SortSlice
+	case "ref":
+		return SortInt
 	}
 	return SortInt
 }
@@ -543,6 +545,23 @@ func (e *Env) binary(x *SExpr) Val {
 
 func (e *Env) quant(x *SExpr) Val {
 	vc := e.a.vc
+	if x.Name == "forallobj" {
+		t := e.lookupType(x.Vars[1])
+		if t == nil {
+			e.fail("forallobj: unknown type %s", x.Vars[1])
+			return boolVal("true")
+		}
+		nm := vc.fresh("qobj_" + x.Vars[0])
+		n := e.with(x.Vars[0], Val{Sort: SortInt, T: types.NewPointer(t), Term: nm})
+		vc.inQuant++
+		body := n.evalBool(x.Args[0])
+		vc.inQuant--
+		q := fmt.Sprintf("(forall ((%s Int)) %s)", nm, implies(app("<", "0", nm), body))
+		if vc.inQuant == 0 {
+			q = addPatterns(q)
+		}
+		return boolVal(q)
+	}
 	if x.Name == "forallasg" {
 		nm := vc.fresh("qasg_" + x.Vars[0])
 		n := e.with(x.Vars[0], Val{Sort: SortAsg, Term: nm})
